@@ -67,6 +67,30 @@ def builder(seed, n, defaults, tag):
             cases.append(gen.solve_case(cid, **kw))
             metas[cid] = (meta, kw)
         g += 1
+    # a forcing that switches on shortly before xend after a long quiet stretch (closed form): the attempt that reaches for
+    # xend straddles the kink and is rejected -- the samples that follow a rejected final attempt (seeded change C01-c
+    # left RK23's `last` flag set there and reported y(x + h) at t = xend)
+    for method in methods:
+        for rep in range(max(1, n // 150)):
+            span = rng.choice([5.0, 20.0])
+            a = rng.choice([1.0, 2.0])
+            c = span * (1.0 - rng.choice([0.01, 0.03, 0.08]))
+            K = rng.choice([10.0, 1000.0])
+            rhs = gen.add(gen.mul(gen.C(-a), gen.Y(0)), gen.iflt(gen.T, gen.C(c), gen.C(0.0), gen.mul(gen.C(K), gen.sub(gen.T, gen.C(c)))))
+
+            def ex(t, a=a, c=c, K=K):
+                if t <= c:
+                    return [math.exp(-a * t)]
+                return [K * ((t - c) / a - 1.0 / (a * a)) + (math.exp(-a * c) + K / (a * a)) * math.exp(-a * (t - c))]
+            prob = {"name": "late_kink", "f": [rhs], "y0": [1.0], "x0": 0.0, "span": span, "exact": ex}
+            for rt in RTOLS:
+                kw = dict(method=method, prob=prob, x0=0.0, xend=span, rtol=rt, atol=rt * 1e-2, defaults=defaults)
+                cid = "%skink%d_%g" % (tag, g, rt)
+                meta = {"family": "late_kink", "n": 1, "backward": False, "tolmode": "mixed", "method": method,
+                        "group": g, "tol": rt, "exact": ex}
+                cases.append(gen.solve_case(cid, **kw))
+                metas[cid] = (meta, kw)
+            g += 1
     # RK4 convergence groups
     for j in range(max(2, n // 40)):
         prob = rng.choice(exact.FAMILIES)(rng)
